@@ -54,24 +54,24 @@ Proof.
 Qed.
 
 (* ---------- name-keyed matching of siblings ---------- *)
-Lemma lookup_abs_some {A} (name : A -> oname) sk n l y :
-  absolute n = true -> lookup name sk n l = Some y -> In y l /\ name y = Some n.
-Proof. intros Ha. unfold lookup. rewrite Ha. apply find_has_name_some. Qed.
+Lemma lookup_abs_some {A} (name : A -> oname) n l y :
+  lookup name n l = Some y -> In y l /\ name y = Some n.
+Proof. unfold lookup. apply find_has_name_some. Qed.
 
-Lemma cmp_each_matched {A} (name : A -> oname) skip sk f lb : forall la ns,
-  map name la = map Some ns -> (forall n, In n ns -> absolute n = true) ->
+Lemma cmp_each_matched {A} (name : A -> oname) skip f lb : forall la ns,
+  map name la = map Some ns ->
   (forall x, In x la -> skip x = false) ->
-  cmp_each name skip (fun n => lookup name sk n lb) f la = Accept ->
+  cmp_each name skip (fun n => lookup name n lb) f la = Accept ->
   exists lb', Forall2 (fun x y => In y lb /\ (name y = name x /\ f x y = Accept)) la lb'.
 Proof.
-  induction la as [|x la IH]; intros ns Hm Ha Hs Hc.
+  induction la as [|x la IH]; intros ns Hm Hs Hc.
   - exists []. constructor.
   - destruct ns as [|n ns]; [discriminate|]. cbn in Hm. inversion Hm as [[Hn Hm']].
     cbn in Hc. rewrite Hn in Hc. rewrite (Hs x (or_introl eq_refl)) in Hc.
-    destruct (lookup name sk n lb) as [y|] eqn:El; [|discriminate].
+    destruct (lookup name n lb) as [y|] eqn:El; [|discriminate].
     apply seq_accept in Hc as [Hf Hr].
-    destruct (lookup_abs_some name sk n lb y (Ha n (or_introl eq_refl)) El) as [Hin Hy].
-    destruct (IH ns Hm' (fun m Hm0 => Ha m (or_intror Hm0)) (fun z Hz => Hs z (or_intror Hz)) Hr)
+    destruct (lookup_abs_some name n lb y El) as [Hin Hy].
+    destruct (IH ns Hm' (fun z Hz => Hs z (or_intror Hz)) Hr)
       as [lb' HF].
     exists (y :: lb'). constructor; [|assumption].
     split; [assumption|]. split; [congruence|assumption].
@@ -80,15 +80,15 @@ Qed.
 (* the heart of soundness: all names of the first list are found in the second, the names of
    the first list are pairwise different and the lists are equally long - so the second list
    is a rearrangement of the matches *)
-Lemma cmp_each_sound {A} (name : A -> oname) skip sk f (R : A -> A -> Prop) la lb :
+Lemma cmp_each_sound {A} (name : A -> oname) skip f (R : A -> A -> Prop) la lb :
   named_ok name la = true -> (forall x, In x la -> skip x = false) ->
   length la = length lb ->
-  cmp_each name skip (fun n => lookup name sk n lb) f la = Accept ->
+  cmp_each name skip (fun n => lookup name n lb) f la = Accept ->
   (forall x y, In x la -> In y lb -> name y = name x -> f x y = Accept -> R x y) ->
   sib_equiv R la lb.
 Proof.
-  intros Hn Hs Hl Hc HR. apply named_ok_spec in Hn as [ns [Hm Ha Hd]].
-  destruct (cmp_each_matched name skip sk f lb la ns Hm Ha Hs Hc) as [lb' HF].
+  intros Hn Hs Hl Hc HR. apply named_ok_spec in Hn as [ns [Hm Hd]].
+  destruct (cmp_each_matched name skip f lb la ns Hm Hs Hc) as [lb' HF].
   assert (Hincl : incl lb' lb)
     by (apply (Forall2_incl_r (fun x y => name y = name x /\ f x y = Accept) lb la lb' HF)).
   exists lb'. split.
@@ -109,27 +109,27 @@ Proof.
   unfold cmp_port. intro H.
   apply seq_accept in H as [H1 H]. apply seq_accept in H as [H2 H].
   apply seq_accept in H as [H3 H]. apply seq_accept in H as [H4 H].
-  apply seq_accept in H as [H5 H]. apply seq_accept in H as [H6 H].
+  apply seq_accept in H as [H6 H].
   apply check_accept in H1, H2, H3, H4, H6.
   apply oname_eqb_spec in H1, H2. apply dir_eqb_spec in H3. apply eqb_prop in H4.
   apply Nat.eqb_eq in H6. repeat split; assumption.
 Qed.
 
-Lemma cmp_wires_sound xo xc io ic : not_asg io -> forall wo wc,
+Lemma cmp_wires_sound xo xc io ic : fst xo <> None -> not_asg io -> forall wo wc,
   forallb (forallb (wf_pin io)) wo = true -> length wo = length wc ->
   cmp_wires xo xc io ic wo wc = Accept -> Forall2 wire_perm wo wc.
 Proof.
-  intros Hna. induction wo as [|w wo IH]; intros [|w' wc] Hw Hl Hc; try discriminate; [constructor|].
+  intros Hxo Hna. induction wo as [|w wo IH]; intros [|w' wc] Hw Hl Hc; try discriminate; [constructor|].
   cbn in Hw. apply andb_true_iff in Hw as [Hw1 Hw2]. cbn in Hl. cbn [cmp_wires] in Hc.
   apply seq_accept in Hc as [H1 H2]. constructor.
-  - exact (cmp_wire_sound _ _ _ _ _ _ Hna Hw1 H1).
+  - exact (cmp_wire_sound _ _ _ _ _ _ Hxo Hna Hw1 H1).
   - exact (IH wc Hw2 (eq_add_S _ _ Hl) H2).
 Qed.
 
-Lemma cmp_cable_rel xo xc io ic o c : not_asg io -> wf_cable io o = true ->
+Lemma cmp_cable_rel xo xc io ic o c : fst xo <> None -> not_asg io -> wf_cable io o = true ->
   cmp_cable xo xc io ic o c = Accept -> cable_rel wire_perm o c.
 Proof.
-  intros Hna Hw Hc. unfold cmp_cable in Hc.
+  intros Hxo Hna Hw Hc. unfold cmp_cable in Hc.
   apply seq_accept in Hc as [H1 Hc]. apply seq_accept in Hc as [H2 Hc].
   apply seq_accept in Hc as [H3 Hc].
   apply check_accept in H1, H2, H3. apply oname_eqb_spec in H1, H2. apply Nat.eqb_eq in H3.
@@ -143,8 +143,8 @@ Proof.
   destruct ro as [[d1 l1]|], rc as [[d2 l2]|]; cbn; intro H.
   - apply check_accept in H. apply andb_true_iff in H as [H1 H2].
     apply oname_eqb_spec in H1, H2. congruence.
-  - destruct d1; discriminate.
-  - destruct d2; discriminate.
+  - discriminate.
+  - discriminate.
   - reflexivity.
 Qed.
 
@@ -224,7 +224,7 @@ Qed.
 
 Lemma cmp_inst_sound o c : cmp_inst (Some o) (Some c) = Accept -> inst_rel props_eq o c.
 Proof.
-  unfold cmp_inst. cbn [oi_name oi_oid]. intro H.
+  unfold cmp_inst. intro H.
   apply seq_accept in H as [H1 H]. apply seq_accept in H as [H2 H].
   apply seq_accept in H as [H3 H4].
   apply check_accept in H1, H2. apply oname_eqb_spec in H1, H2. apply cmp_ref_sound in H3.
@@ -240,10 +240,8 @@ Lemma cmp_top_sound ta tb :
 Proof.
   destruct ta as [i|], tb as [j|]; intro H; cbn.
   - apply cmp_inst_sound. assumption.
-  - exfalso. unfold cmp_inst in H. apply seq_accept in H as [_ H]. apply seq_accept in H as [_ H].
-    discriminate.
-  - exfalso. unfold cmp_inst in H. apply seq_accept in H as [_ H]. apply seq_accept in H as [_ H].
-    discriminate.
+  - exfalso. unfold cmp_inst in H. discriminate H.
+  - exfalso. unfold cmp_inst in H. discriminate H.
   - exact I.
 Qed.
 
@@ -251,10 +249,10 @@ Qed.
 Lemma no_skip_false {A} (l : list A) : forall x, In x l -> no_skip x = false.
 Proof. reflexivity. Qed.
 
-Lemma cmp_def_sound lo lc o c : wf_def o = true -> no_asg_def o = true ->
+Lemma cmp_def_sound lo lc o c : d_name o <> None -> wf_def o = true -> no_asg_def o = true ->
   cmp_def lo lc o c = Accept -> defn_rel props_eq wire_perm o c.
 Proof.
-  intros Hwf Hna H. apply wf_def_unpack in Hwf. apply not_asg_of in Hna.
+  intros Hdn Hwf Hna H. apply wf_def_unpack in Hwf. apply not_asg_of in Hna.
   unfold cmp_def in H. cbv zeta in H.
   apply seq_accept in H as [H1 H]. apply seq_accept in H as [H2 H].
   apply seq_accept in H as [H3 H]. apply seq_accept in H as [H4 H].
@@ -266,7 +264,7 @@ Proof.
   - eapply cmp_each_sound; [apply (wd_np o Hwf)|apply no_skip_false|assumption|exact H4|].
     intros x y _ _ _ Hf. eapply cmp_port_sound. exact Hf.
   - eapply cmp_each_sound; [apply (wd_nc o Hwf)|apply no_skip_false|assumption|exact H6|].
-    intros x y Hx _ _ Hf. eapply cmp_cable_rel; [exact Hna| |exact Hf].
+    intros x y Hx _ _ Hf. eapply (cmp_cable_rel (d_name o, lo)); [exact Hdn|exact Hna| |exact Hf].
     pose proof (wd_wc o Hwf) as Hw. rewrite forallb_forall in Hw. apply Hw. assumption.
   - eapply cmp_each_sound; [apply (wd_ni o Hwf)|exact Hna|assumption|exact H8|].
     intros x y _ _ _ Hf. apply cmp_inst_sound. exact Hf.
@@ -282,7 +280,7 @@ Proof.
   apply check_accept in H1, H2, H3. apply oname_eqb_spec in H1, H2. apply Nat.eqb_eq in H3.
   split; [assumption|]. split; [assumption|].
   eapply cmp_each_sound; [exact Hn|apply no_skip_false|assumption|exact H|].
-  intros x y Hx _ _ Hf. eapply cmp_def_sound; [apply Hw; assumption|apply Hna; assumption|exact Hf].
+  intros x y Hx _ _ Hf. eapply cmp_def_sound; [exact (named_ok_in d_name _ x Hn Hx)|apply Hw; assumption|apply Hna; assumption|exact Hf].
 Qed.
 
 (* SOUNDNESS: an accepted b is a up to the order of siblings and of the pins of wires: no
